@@ -230,17 +230,30 @@ func c18deepCopy(tx *wire.MsgTx) *wire.MsgTx {
 	if tx.TxIn != nil {
 		cp.TxIn = make([]*wire.TxIn, len(tx.TxIn))
 	}
+	// an element object that sits in several slots of the original sits in the
+	// same slots of the copy (pointer sharing is part of the input)
+	inMap := map[*wire.TxIn]*wire.TxIn{}
+	outMap := map[*wire.TxOut]*wire.TxOut{}
 	for k, in := range tx.TxIn {
+		if prev, ok := inMap[in]; ok {
+			cp.TxIn[k] = prev
+			continue
+		}
 		n := &wire.TxIn{PreviousOutPoint: in.PreviousOutPoint, Sequence: in.Sequence}
 		if in.SignatureScript != nil {
 			n.SignatureScript = append([]byte{}, in.SignatureScript...)
 		}
+		inMap[in] = n
 		cp.TxIn[k] = n
 	}
 	if tx.TxOut != nil {
 		cp.TxOut = make([]*wire.TxOut, len(tx.TxOut))
 	}
 	for k, o := range tx.TxOut {
+		if prev, ok := outMap[o]; ok {
+			cp.TxOut[k] = prev
+			continue
+		}
 		n := &wire.TxOut{Value: o.Value}
 		if o.PkScript != nil {
 			n.PkScript = append([]byte{}, o.PkScript...)
@@ -249,6 +262,7 @@ func c18deepCopy(tx *wire.MsgTx) *wire.MsgTx {
 		if o.TokenData.Commitment != nil {
 			n.TokenData.Commitment = append([]byte{}, o.TokenData.Commitment...)
 		}
+		outMap[o] = n
 		cp.TxOut[k] = n
 	}
 	return cp
@@ -675,6 +689,17 @@ func c18seededTx(c *vf.Ctx) (*wire.MsgTx, string) {
 		tx.TxOut = append(tx.TxOut, o)
 	}
 
+	// the same element object in several slots (a fan-out that adds one output
+	// object several times; an input list built from a shared template)
+	if r.Chance(1, 8) {
+		for k := 1 + r.Intn(3); k > 0; k-- {
+			if len(tx.TxOut) >= 2 && r.Bool() {
+				tx.TxOut[r.Intn(len(tx.TxOut))] = tx.TxOut[r.Intn(len(tx.TxOut))]
+			} else if len(tx.TxIn) >= 2 {
+				tx.TxIn[r.Intn(len(tx.TxIn))] = tx.TxIn[r.Intn(len(tx.TxIn))]
+			}
+		}
+	}
 	// arrangement
 	mode := r.Intn(8)
 	sortIn := func() {
